@@ -2024,4 +2024,288 @@ theorem cjFromExprs_ok (env : Env) : (l : List FromExpr) → (g g' : LGraph) →
       exact B1.trans B2
 end
 
+/-! ## 8. statement level -/
+
+/-- everything the specification lists is a `Table` -/
+theorem dsElem_isDataset (env : Env) (cte : List String) (parts : List String) (a : Option String) (k : Bool) (d : DS)
+    (h : d ∈ dsElem env cte (.table parts a k)) : d.isDataset = true := by
+  have : d = (mkTable env parts none).d := by
+    cases parts with
+    | nil => simpa [dsElem] using h
+    | cons n r =>
+      cases r with
+      | nil =>
+        simp only [dsElem] at h
+        split at h
+        · cases h
+        · simpa using h
+      | cons _ _ => simpa [dsElem] using h
+  rw [this]; rfl
+
+mutual
+theorem dsExpr_isDataset (env : Env) (cte : List String) (d : DS) : (e : Expr) → d ∈ dsExpr env cte e → d.isDataset = true
+  | .col _ _, h => by simp [dsExpr] at h
+  | .star _, h => by simp [dsExpr] at h
+  | .lit _, h => by simp [dsExpr] at h
+  | .func _ _ as none, h => by
+    simp only [dsExpr, List.append_nil] at h
+    exact dsExprs_isDataset env cte d as h
+  | .func _ _ as (some (.mk p o)), h => by
+    simp only [dsExpr, List.mem_append] at h
+    rcases h with h | h | h
+    · exact dsExprs_isDataset env cte d as h
+    · exact dsExprs_isDataset env cte d p h
+    · exact dsExprs_isDataset env cte d o h
+  | .cast e _, h => by
+    simp only [dsExpr] at h
+    exact dsExpr_isDataset env cte d e h
+  | .case ws none, h => by
+    simp only [dsExpr, List.append_nil] at h
+    exact dsWhens_isDataset env cte d ws h
+  | .case ws (some e), h => by
+    simp only [dsExpr, List.mem_append] at h
+    rcases h with h | h
+    · exact dsWhens_isDataset env cte d ws h
+    · exact dsExpr_isDataset env cte d e h
+  | .bin _ a b, h => by
+    simp only [dsExpr, List.mem_append] at h
+    rcases h with h | h
+    · exact dsExpr_isDataset env cte d a h
+    · exact dsExpr_isDataset env cte d b h
+  | .paren e, h => by
+    simp only [dsExpr] at h
+    exact dsExpr_isDataset env cte d e h
+  | .subq q, h => by
+    simp only [dsExpr] at h
+    exact dsQuery_isDataset env d q cte h
+  | .inSubq e _ q, h => by
+    simp only [dsExpr, List.mem_append] at h
+    rcases h with h | h
+    · exact dsExpr_isDataset env cte d e h
+    · exact dsQuery_isDataset env d q cte h
+  | .exist _ q, h => by
+    simp only [dsExpr] at h
+    exact dsQuery_isDataset env d q cte h
+theorem dsExprs_isDataset (env : Env) (cte : List String) (d : DS) :
+    (l : List Expr) → d ∈ dsExprs env cte l → d.isDataset = true
+  | [], h => by simp [dsExprs] at h
+  | e :: r, h => by
+    simp only [dsExprs, List.mem_append] at h
+    rcases h with h | h
+    · exact dsExpr_isDataset env cte d e h
+    · exact dsExprs_isDataset env cte d r h
+theorem dsOpt_isDataset (env : Env) (cte : List String) (d : DS) :
+    (o : Option Expr) → d ∈ dsOpt env cte o → d.isDataset = true
+  | none, h => by simp [dsOpt] at h
+  | some e, h => by
+    simp only [dsOpt] at h
+    exact dsExpr_isDataset env cte d e h
+theorem dsWhens_isDataset (env : Env) (cte : List String) (d : DS) :
+    (l : List When) → d ∈ dsWhens env cte l → d.isDataset = true
+  | [], h => by simp [dsWhens] at h
+  | .mk c r :: rest, h => by
+    simp only [dsWhens, List.mem_append] at h
+    rcases h with (h | h) | h
+    · exact dsExpr_isDataset env cte d c h
+    · exact dsExpr_isDataset env cte d r h
+    · exact dsWhens_isDataset env cte d rest h
+theorem dsItems_isDataset (env : Env) (cte : List String) (d : DS) :
+    (l : List Item) → d ∈ dsItems env cte l → d.isDataset = true
+  | [], h => by simp [dsItems] at h
+  | .mk e _ _ :: r, h => by
+    simp only [dsItems, List.mem_append] at h
+    rcases h with h | h
+    · exact dsExpr_isDataset env cte d e h
+    · exact dsItems_isDataset env cte d r h
+theorem dsQuery_isDataset (env : Env) (d : DS) : (q : Query) → (cte : List String) → d ∈ dsQuery env cte q → d.isDataset = true
+  | .select _ its frm wh grp hav, cte, h => by
+    simp only [dsQuery, List.mem_append] at h
+    rcases h with (((h | h) | h) | h) | h
+    · exact dsFromExprs_isDataset env cte d frm h
+    · exact dsItems_isDataset env cte d its h
+    · exact dsOpt_isDataset env cte d wh h
+    · exact dsExprs_isDataset env cte d grp h
+    · exact dsOpt_isDataset env cte d hav h
+  | .setop first rest, cte, h => by
+    simp only [dsQuery, List.mem_append] at h
+    rcases h with h | h
+    · exact dsBranch_isDataset env cte d first h
+    · exact dsOpBranches_isDataset env cte d rest h
+  | .withq cs body, cte, h => by
+    simp only [dsQuery, List.mem_append] at h
+    rcases h with h | h
+    · exact dsCtes_isDataset env d cs cte h
+    · exact dsQuery_isDataset env d body _ h
+theorem dsBranch_isDataset (env : Env) (cte : List String) (d : DS) :
+    (b : Branch) → d ∈ dsBranch env cte b → d.isDataset = true
+  | .mk q _, h => by
+    simp only [dsBranch] at h
+    exact dsQuery_isDataset env d q cte h
+theorem dsOpBranches_isDataset (env : Env) (cte : List String) (d : DS) :
+    (l : List OpBranch) → d ∈ dsOpBranches env cte l → d.isDataset = true
+  | [], h => by simp [dsOpBranches] at h
+  | .mk _ b :: r, h => by
+    simp only [dsOpBranches, List.mem_append] at h
+    rcases h with h | h
+    · exact dsBranch_isDataset env cte d b h
+    · exact dsOpBranches_isDataset env cte d r h
+theorem dsCtes_isDataset (env : Env) (d : DS) :
+    (l : List Cte) → (cte : List String) → d ∈ (dsCtes env cte l).1 → d.isDataset = true
+  | [], _, h => by simp [dsCtes] at h
+  | .mk name q :: r, cte, h => by
+    simp only [dsCtes, List.mem_append] at h
+    rcases h with h | h
+    · exact dsQuery_isDataset env d q cte h
+    · exact dsCtes_isDataset env d r _ h
+theorem dsElemAny_isDataset (env : Env) (cte : List String) (d : DS) :
+    (e : FromElem) → d ∈ dsElem env cte e → d.isDataset = true
+  | .table parts a k, h => dsElem_isDataset env cte parts a k d h
+  | .derived q _ _, h => by
+    simp only [dsElem] at h
+    exact dsQuery_isDataset env d q cte h
+theorem dsJoins_isDataset (env : Env) (cte : List String) (d : DS) :
+    (l : List Join) → d ∈ dsJoins env cte l → d.isDataset = true
+  | [], h => by simp [dsJoins] at h
+  | .mk _ e on _ :: r, h => by
+    simp only [dsJoins, List.mem_append] at h
+    rcases h with (h | h) | h
+    · exact dsElemAny_isDataset env cte d e h
+    · exact dsOpt_isDataset env cte d on h
+    · exact dsJoins_isDataset env cte d r h
+theorem dsFromExpr_isDataset (env : Env) (cte : List String) (d : DS) :
+    (f : FromExpr) → d ∈ dsFromExpr env cte f → d.isDataset = true
+  | .mk base js, h => by
+    simp only [dsFromExpr, List.mem_append] at h
+    rcases h with h | h
+    · exact dsElemAny_isDataset env cte d base h
+    · exact dsJoins_isDataset env cte d js h
+theorem dsFromExprs_isDataset (env : Env) (cte : List String) (d : DS) :
+    (l : List FromExpr) → d ∈ dsFromExprs env cte l → d.isDataset = true
+  | [], h => by simp [dsFromExprs] at h
+  | f :: r, h => by
+    simp only [dsFromExprs, List.mem_append] at h
+    rcases h with h | h
+    · exact dsFromExpr_isDataset env cte d f h
+    · exact dsFromExprs_isDataset env cte d r h
+end
+
+/-- printed name of a graph node as the runner reports it -/
+def printedNode (g : LGraph) : Node → String
+  | .ds d => printedDS g d
+  | .col p _ => p
+  | .str s => s
+
+theorem printedDS_dataset (g : LGraph) (d : DS) (hd : d.isDataset = true) : printedDS g d = prDS d := by
+  cases d with
+  | table _ _ => rfl
+  | path _ => rfl
+  | subq _ => cases hd
+
+theorem mem_tagged_ds (g : LGraph) (t : Tag) (n : Node) :
+    n ∈ (Assemble.tagged g t).filter Node.isDataset ↔ ∃ d, n = .ds d ∧ d.isDataset = true ∧ g.tag (.ds d) t = some true := by
+  simp only [Assemble.tagged, List.mem_filter, beq_iff_eq]
+  constructor
+  · rintro ⟨⟨_, ht⟩, hd⟩
+    cases n with
+    | ds d => exact ⟨d, rfl, hd, ht⟩
+    | col _ _ => cases hd
+    | str _ => cases hd
+  · rintro ⟨d, hn, hd, ht⟩
+    rw [hn]
+    refine ⟨⟨?_, ht⟩, hd⟩
+    apply Decidable.byContradiction
+    intro hnm
+    rw [tag_of_not_mem _ _ _ hnm] at ht
+    cases ht
+
+/-- the printed names of the `Table`/`Path` nodes carrying tag `t` are the printed names of `S` -/
+theorem names_tagged (g : LGraph) (t : Tag) (S : List DS)
+    (hS : ∀ d, d.isDataset = true → (g.tag (.ds d) t = some true ↔ d ∈ S)) (hall : ∀ d ∈ S, d.isDataset = true) (x : String) :
+    x ∈ ((Assemble.tagged g t).filter Node.isDataset).map (printedNode g) ↔ x ∈ S.map prDS := by
+  simp only [List.mem_map, mem_tagged_ds]
+  constructor
+  · rintro ⟨n, ⟨d, hn, hd, ht⟩, hx⟩
+    rw [hn] at hx
+    exact ⟨d, (hS d hd).mp ht, by rw [← hx]; exact (printedDS_dataset g d hd).symm⟩
+  · rintro ⟨d, hd, hx⟩
+    have hdd := hall d hd
+    exact ⟨.ds d, ⟨d, rfl, hdd, (hS d hdd).mpr hd⟩, by rw [← hx]; exact printedDS_dataset g d hdd⟩
+
+/-- plain `compose` of a well‑formed holder onto another -/
+theorem compose_rw (g h : LGraph) (hh : Inv h) (d : DS) (hd : d.isDataset = true) :
+    (RD (g.compose h) d ↔ RD g d ∨ RD h d) ∧ (WR (g.compose h) d ↔ WR g d ∨ WR h d) := by
+  unfold RD WR
+  rw [tag_compose, tag_compose]
+  have h1 := hh.rd d
+  have h2 := hh.wr d hd
+  constructor
+  · cases hx : h.tag (.ds d) .read with
+    | none => simp
+    | some b =>
+      cases b
+      · exact absurd hx h1
+      · simp
+  · cases hx : h.tag (.ds d) .write with
+    | none => simp
+    | some b =>
+      cases b
+      · exact absurd hx h2
+      · simp
+
+/-- the holder `CreateInsertExtractor` starts from: the target table (and its columns) -/
+def wq0 (env : Env) (isInsert : Bool) (tgt : List String) (cols : Option (List String)) : LGraph :=
+  let t := mkTable env tgt none
+  let g := addWriteO Graph.empty t
+  let g := if isInsert && env.prov.truthy then addWriteColumns g (provColumns env.prov t.d t.printed) else g
+  match cols with | some cs => addWriteColumns g (cs.map listColumn) | none => g
+
+theorem exWriteQuery_eq (env : Env) (isInsert : Bool) (tgt : List String) (cols : Option (List String)) (q : Query) :
+    exWriteQuery env isInsert tgt cols q =
+      (match exQuery env (ctxOf (wq0 env isInsert tgt cols)) q with
+        | .ok h => .ok ((wq0 env isInsert tgt cols).compose h)
+        | .error e => .error e) := rfl
+
+theorem tag_wq0 (env : Env) (isInsert : Bool) (tgt : List String) (cols : Option (List String)) (d : DS) (t : Tag) :
+    (wq0 env isInsert tgt cols).tag (.ds d) t = if d = (mkTable env tgt none).d ∧ t = .write then some true else none := by
+  have key : SameDs (addWriteO Graph.empty (mkTable env tgt none)) (wq0 env isInsert tgt cols) := by
+    unfold wq0
+    simp only
+    cases cols with
+    | none =>
+      simp only
+      split
+      · exact sameDs_addWriteColumns _ _
+      · exact SameDs.refl _
+    | some cs =>
+      simp only
+      split
+      · exact (sameDs_addWriteColumns _ _).trans (sameDs_addWriteColumns _ _)
+      · exact sameDs_addWriteColumns _ _
+  rw [key.eq, tag_addWriteO, tag_empty]
+  simp only [Node.ds.injEq]
+
+/-- INSERT … query / CTAS / CREATE VIEW on the fragment: reads = the query's, WRITE exactly on the target -/
+theorem exWriteQuery_ok (env : Env) (isInsert : Bool) (tgt : List String) (cols : Option (List String)) (q : Query)
+    (hq : fragQ q = true) (g : LGraph) (h : exWriteQuery env isInsert tgt cols q = .ok g) (d : DS) (hd : d.isDataset = true) :
+    (RD g d ↔ d ∈ dsQuery env [] q) ∧ (WR g d ↔ d ∈ [(mkTable env tgt none).d]) := by
+  rw [exWriteQuery_eq] at h
+  split at h
+  · rename_i hh h1
+    have T := tag_wq0 env isInsert tgt cols
+    have hcte : (ctxOf (wq0 env isInsert tgt cols)).cte = [] :=
+      cteObjs_nil (fun d' => by rw [T]; split <;> simp_all)
+    have R := exQuery_ok env q _ hh hq hcte h1
+    rw [← ok_inj h]
+    have C := compose_rw (wq0 env isInsert tgt cols) hh R.inv d hd
+    rw [C.1, C.2, R.rd d hd, R.wr d hd]
+    have hw : (ctxOf (wq0 env isInsert tgt cols)).write.map (·.d) = tagSet (wq0 env isInsert tgt cols) .write :=
+      map_d_objsOf _ _
+    rw [hw, mem_tagSet]
+    unfold RD WR
+    rw [T, T]
+    constructor
+    · simp
+    · by_cases hx : d = (mkTable env tgt none).d <;> simp [hx]
+  · cases h
+
 end SqlLineage.Proofs.ReadsExact
